@@ -228,10 +228,14 @@ def rounds_loop(chk, crate, g):
                         from ..loops import resolve
                         s2 = st.fork()
                         s2.assume = tuple(assume)
-                        if isinstance(nv, T.T) and resolve(ev, s2, nv) is T.add(t, T.const(1, t.w)):
+                        rv = resolve(ev, s2, nv) if isinstance(nv, T.T) else None
+                        one = T.add(t, T.const(1, t.w))
+                        # the counter advances by one per iteration (`for _ in 0..rounds`) or by at most one
+                        # (`while accepted < rounds { if measured { accepted += 1 } }`)
+                        if rv is one or (rv is not None and rv.op == "ite" and {rv.args[1], rv.args[2]} == {one, t}):
                             found = (r, t, bound[0])
     okl = found is not None
-    chk.ob("R5", "gen_entropy|rounds loop: i from 0, i < rounds, i += 1", okl, "loop records: %s" % [(r.header, len(r.vars)) for r in recs],
+    chk.ob("R5", "gen_entropy|rounds loop: a counter from 0, continued while counter < rounds, advanced by at most 1 per iteration", okl, "loop records: %s" % [(r.header, len(r.vars)) for r in recs],
            where=crate.bodies[genkey]["span"][0], sample={"loop_bound": T.show(found[2], 3)} if found else None)
     if okl:
         r = found[0]
